@@ -294,6 +294,9 @@ def eval_strings(imports, exprs, tag, shard=400, timeout=900):
     Hex/ASCII-safe strings only (no quote characters inside)."""
     cdir = os.path.join(TH, "Cases")
     os.makedirs(cdir, exist_ok=True)
+    okb, logb = make(["theories/%s.vo" % i.replace(".", "/") for i in imports])
+    if not okb:
+        raise CaseEvalError("could not build the imported libraries: %s" % (first_error(logb),))
     results = []
     shards = [exprs[i:i + shard] for i in range(0, len(exprs), shard)]
     procs = []
